@@ -275,11 +275,16 @@ def r03_4(run, model):
         if l["pat"]["k"] == "PIdent" and l.get("init") and "ARRAY_WILDCARD_LEN" in S.norm_ws(run.facts.text(rel, l["init"]["sp"])):
             wild.add(l["pat"]["name"])
     n = 0
+    mk = model.fn("make_fn_scheme", rel)
+    mps = [p for p in mk.params() if not p["self"]]
+    ret_i = next((i for i, p in enumerate(mps) if re.fullmatch(r"(tast::)?Ty", (p["ty"] or "").replace(" ", ""))), None)
+    if ret_i is None:
+        raise AnalysisIncomplete("make_fn_scheme: result-type parameter not found")
     for c in S.calls(f.body, "make_fn_scheme"):
-        if len(c["args"]) != 2:
+        if len(c["args"]) != len(mps):
             continue
         n += 1
-        ret_ids = S.idents(c["args"][1])
+        ret_ids = S.idents(c["args"][ret_i])
         par = S.Parents(f.body)
         ins = next((a for a in par.ancestors(c) if a["k"] == "MethodCall" and a["method"] == "insert"), None)
         nm = ins["args"][0]["recv"]["value"] if ins and ins["args"] and ins["args"][0]["k"] == "MethodCall" and ins["args"][0]["recv"]["k"] == "Lit" else "?"
